@@ -5,7 +5,7 @@ Definition T : tables := {|
   magic := [([80;75;3;4]%N, (s "zip"), 4%N); ([80;75;5;6]%N, (s "zip"), 4%N); ([55;122;188;175;39;28]%N, (s "7z"), 6%N); ([31;139]%N, (s "tar.gz"), 2%N); ([66;90]%N, (s "tar.bz2"), 2%N); ([253;55;122;88;90;0]%N, (s "tar.xz"), 6%N)];
   tar_magic_offset := 257%N;
   tar_magic := [117;115;116;97;114]%N;
-  nested := [(s ".7z"); (s ".tar"); (s ".tar.bz2"); (s ".tar.gz"); (s ".tar.xz"); (s ".tbz2"); (s ".tgz"); (s ".txz"); (s ".zip")];
+  nested := [(s ".7z"); (s ".bz2"); (s ".gz"); (s ".tar"); (s ".tar.bz2"); (s ".tar.gz"); (s ".tar.xz"); (s ".tbz2"); (s ".tgz"); (s ".txz"); (s ".xz"); (s ".zip")];
   max_archive_file := 52428800%N;
   max_memory := 10485760%N;
   max_7z := 104857600%N;
